@@ -734,8 +734,12 @@ def run(ctx):
             out["violations"].append({"what": "deviation in class %s, which is not a listed known finding" % fid,
                                       "replay": d["example"], "no_input": False})
     not_reproduced = sorted(fid for fid in listed if fid not in known)
-    for v in viol[:60]:
-        out["violations"].append({"what": v["kind"], "replay": v, "no_input": False})
+    per_kind = {}
+    for v in viol:
+        kk = (v["kind"], v.get("profile"), v.get("op"))
+        per_kind[kk] = per_kind.get(kk, 0) + 1
+        if per_kind[kk] <= 4 and len(out["violations"]) < 80:      # a few replays per kind are enough
+            out["violations"].append({"what": v["kind"], "replay": v, "no_input": False})
     proof_broken = (not pr["ok"]) or bad_assum or audit or missing_consts
     if proof_broken:
         reason = {"proof_failed_at": pr.get("failed_at"), "log_tail": pr["log"][-1500:] if not pr["ok"] else "",
